@@ -329,6 +329,7 @@ func c14(r *Report) {
 
 	r.Guard("C14.R5", "a request whose Via names this proxy is not sent upstream and is answered 400", func() {
 		skipDecisionRule(r)
+		contextFlagRules(r, "SkipRoundTrip", "SkippingRoundTrip")
 		g := G(vreq)
 		loops := plainCalls(vreq, "(*M/header.ViaModifier).hasLoop")
 		if len(loops) != 1 {
@@ -883,7 +884,40 @@ func c14(r *Report) {
 					continue
 				}
 				if p := gbf.PathTo([]ssa.Instruction{gbf.Entry()}, true, isLook, func(i ssa.Instruction) bool { return i == ssa.Instruction(ret) }); p != nil {
-					wit = p
+					// confirmed on acyclic block paths: the path is feasible (an inlined helper that
+					// returned nil is not followed by the caller's `err != nil` edge), avoids the
+					// lookup, and returns nil along it
+					confirmed := false
+					if paths, okP := blockPaths(bf.Blocks[0], 20000); okP {
+						for _, bp := range paths {
+							if bp[len(bp)-1] != ret.Block() || !pathFeasible(bp) {
+								continue
+							}
+							looks := false
+							for _, b := range bp {
+								for _, in := range b.Instrs {
+									if isLook(in) {
+										looks = true
+									}
+								}
+							}
+							if looks {
+								continue
+							}
+							for _, v := range retVals(ret, 0) {
+								for _, l := range resolveOnPath(v, bp) {
+									if isNilConst(l) {
+										confirmed = true
+									}
+								}
+							}
+						}
+					} else {
+						confirmed = true
+					}
+					if confirmed {
+						wit = p
+					}
 				}
 			}
 			r.Paths++
